@@ -74,6 +74,11 @@ def dependent_ann(draw, knames, kinds=None):
         pid = draw(st.sampled_from(sorted(S.PRED_IMPL)))
         b = draw(st.sampled_from(bounds_for(pid, knames)))
         bound = ["cls", b] if b != "object" else ["obj"]
+        if draw(st.integers(0, 11)) == 0:
+            # a union of classes as the bound
+            pair = {"num": ["int", "float"], "sized": ["list", "tuple"]}.get(S.PRED_DOMAIN[pid])
+            if pair:
+                return ["dep", ["union", [["cls", pair[0]], ["cls", pair[1]]]], pid]
         if draw(st.integers(0, 9)) == 0:
             # the bound is itself a value-dependent type: Dependent[Dependent[int, pos], even]
             same_domain = sorted(q for q in S.PRED_IMPL if S.PRED_DOMAIN[q] == S.PRED_DOMAIN[pid] and q != pid)
